@@ -122,32 +122,7 @@ func runC04(c *Ctx) {
 	if fn := p.FnOpt("adapter", "inMemoryAdapter.delete"); fn != nil {
 		roomSideRemoval(c, "C04-D1", "adapter.inMemoryAdapter.delete", fn)
 	}
-	{
-		fn := p.Fn("adapter", "inMemoryAdapter.DeleteAll")
-		li := Locks(fn)
-		name := "adapter.inMemoryAdapter.DeleteAll"
-		each := findInstrs(fn, setCallPred("Each", `a\.sids\[sid\]#0`))
-		okEach := false
-		if len(each) == 1 {
-			if mc, ok := each[0].(*ssa.Call).Call.Args[0].(*ssa.MakeClosure); ok {
-				cf := mc.Fn.(*ssa.Function)
-				if p.FnOpt("adapter", "inMemoryAdapter.delete") != nil {
-					d := CallsTo(Calls(cf), `\(\*adapter\.inMemoryAdapter\)\.delete`)
-					okEach = len(d) == 1 && Term(d[0].Arg(0)) == "sid" && Term(d[0].Arg(1)) == "room" && len(GuardTerms(d[0].Instr)) == 0
-				} else {
-					okEach = len(roomSideRemoval(c, "C04-D1", name+"$each", cf)) == 2
-				}
-				eachNeverStops(c, "C04-D1", name+"/visits-every-room", cf)
-			}
-		}
-		c.Ob("C04-D1", name+"/rooms-side", fn.Pos(), okEach && li.HoldsW(each[0], "a.mu"), "DeleteAll must remove sid from every room it is in (a.delete(sid, room) for each room of sids[sid]) under a.mu")
-		dd := findInstrs(fn, func(in ssa.Instruction) bool { return isBuiltinDelete(in, "a.sids") })
-		okdd := len(dd) == 1 && Term(dd[0].(*ssa.Call).Call.Args[1]) == "sid" && li.HoldsW(dd[0], "a.mu")
-		c.Ob("C04-D1", name+"/sids-side", fn.Pos(), okdd, "DeleteAll must delete sids[sid] under a.mu")
-		if okdd && len(each) == 1 {
-			c.Ob("C04-D1", name+"/order", dd[0].Pos(), Dominates(each[0], dd[0]) && SameRegion(li, each[0], dd[0], "a.mu"), "the room sweep must precede deleting sids[sid], in the same critical section")
-		}
-	}
+	deleteAllSweepsEveryRoom(c, "C04-D1")
 	// nobody else mutates the two indexes
 	for _, fn := range p.SrcFuncs() {
 		top := EnclosingTop(fn)
@@ -468,6 +443,41 @@ func runC04(c *Ctx) {
 // closedSocketInNoRoom (C04-D5, C06-D6): the close path of a server socket
 // disables join before leaveAll, always runs leaveAll for a connected socket,
 // and Join/Leave address the adapter under the socket's own id.
+// deleteAllSweepsEveryRoom: DeleteAll leaves the sid in no room. Stated over every site: each
+// delete(a.sids, sid) in DeleteAll is dominated by the sweep over ALL rooms of sids[sid] (a shortcut
+// that forgets the entry after removing the sid from only some rooms leaves it in rooms[r] for
+// good: nothing can find it there again). Shared by C04-D1 and C06-D6.
+func deleteAllSweepsEveryRoom(c *Ctx, rule string) {
+	p := c.P
+	fn := p.Fn("adapter", "inMemoryAdapter.DeleteAll")
+	li := Locks(fn)
+	name := "adapter.inMemoryAdapter.DeleteAll"
+	each := findInstrs(fn, setCallPred("Each", `a\.sids\[sid\]#0`))
+	okEach := false
+	if len(each) == 1 {
+		if mc, ok := each[0].(*ssa.Call).Call.Args[0].(*ssa.MakeClosure); ok {
+			cf := mc.Fn.(*ssa.Function)
+			if p.FnOpt("adapter", "inMemoryAdapter.delete") != nil {
+				d := CallsTo(Calls(cf), `\(\*adapter\.inMemoryAdapter\)\.delete`)
+				okEach = len(d) == 1 && Term(d[0].Arg(0)) == "sid" && Term(d[0].Arg(1)) == "room" && len(GuardTerms(d[0].Instr)) == 0
+			} else {
+				okEach = len(roomSideRemoval(c, rule, name+"$each", cf)) == 2
+			}
+			eachNeverStops(c, rule, name+"/visits-every-room", cf)
+		}
+	}
+	c.Ob(rule, name+"/rooms-side", fn.Pos(), okEach && li.HoldsW(each[0], "a.mu"), "DeleteAll must remove sid from every room it is in (a.delete(sid, room) for each room of sids[sid]) under a.mu")
+	dd := findInstrs(fn, func(in ssa.Instruction) bool { return isBuiltinDelete(in, "a.sids") })
+	c.Ob(rule, name+"/sids-side", fn.Pos(), len(dd) >= 1, "DeleteAll must delete sids[sid] under a.mu")
+	for _, d := range dd {
+		okd := Term(d.(*ssa.Call).Call.Args[1]) == "sid" && li.HoldsW(d, "a.mu")
+		c.Ob(rule, name+"/sids-side-key", d.Pos(), okd, "DeleteAll must delete sids[sid] (that key) under a.mu")
+		if len(each) == 1 {
+			c.Ob(rule, name+"/order", d.Pos(), Dominates(each[0], d) && SameRegion(li, each[0], d, "a.mu"), "every delete of sids[sid] must come after the sweep over all rooms of the sid, in the same critical section: an entry forgotten after a partial removal leaves the sid in a room for good")
+		}
+	}
+}
+
 func closedSocketInNoRoom(c *Ctx, rule string) {
 	p := c.P
 	{
